@@ -65,7 +65,7 @@ def run(res):
     exe = C.build_model()
     rng = random.Random(res.seed)
     n = 6000 if res.tier == "quick" else 400000
-    cases = exprgen.grid(rng) + exprgen.structured(rng, n) + exprgen.malformed(rng, n // 3)
+    cases = exprgen.grid(rng) + exprgen.padded() + exprgen.structured(rng, n) + exprgen.malformed(rng, n // 3)
     rows = run_exprs(vh, exe, [c[0] for c in cases])
     mism, dist, errs = [], {}, 0
     for (text, expected, stream), row in zip(cases, rows):
@@ -84,7 +84,7 @@ def run(res):
     run_deep(res, vh, exe)
     res.extra["exhaustive"] = False
     res.rule = ("texts: (a) every binary operator x 32x32 boundary operands, every unary operator and byte/word function x 32 operands, "
-                "every ordered pair of binary operators in both nestings and every unary/binary nesting; (b) random trees (depth<=5) "
+                "every ordered pair of binary operators in both nestings and every unary/binary nesting, literals of every radix padded with 1..200 leading zeros; (b) random trees (depth<=5) "
                 "over literals of all radixes, character literals, symbols, rendered with the parentheses the documented table requires, "
                 "with blanks at every space() site, with redundant parentheses; (c) hostile literals and mutated texts. Oracle: "
                 "expected AST = the generated tree, value = Spec/ExprSpec.spec_eval; non-trivial = text parses; distinct by text")
